@@ -33,9 +33,9 @@ def r (n : String) : Op := .reg { name := Text.ofString n }
 /-- witness kernel (shape of `examples/update` on zen2): a multiply with a memory source (latency 7,
     3 without the load) feeding a store -/
 def witness : List Ins :=
-  [ mkIns 1 [.mem ⟨some ⟨[], Text.ofString "rax", false, false⟩, none, 1, none, false, false, [1]⟩, r "xmm1"]
+  [ mkIns 1 [.mem ⟨some ⟨[], Text.ofString "rax", false, false⟩, none, 1, none, none, false, false, [1]⟩, r "xmm1"]
       [r "xmm0"] [] 7 (some 3) true,
-    mkIns 2 [r "xmm0"] [.mem ⟨some ⟨[], Text.ofString "rax", false, false⟩, none, 1, none, false, false, [1]⟩] [] 0 (some 0) false ]
+    mkIns 2 [r "xmm0"] [.mem ⟨some ⟨[], Text.ofString "rax", false, false⟩, none, 1, none, none, false, false, [1]⟩] [] 0 (some 0) false ]
 
 /-- **the full property is false of the code before the repair** (`cp_underreports`): the total the
     unrepaired variant reports for the witness kernel is 3, although the multiply alone takes 7 cycles
@@ -364,7 +364,7 @@ example : cpTotal witness (create .x86 false {} witness) = 7 ∧
 
 /-- a kernel whose first instruction has a load node but no `latency_wo_load` -/
 def unknownLoad : List Ins :=
-  [ mkIns 1 [.mem ⟨some ⟨[], Text.ofString "rax", false, false⟩, none, 1, none, false, false, [1]⟩]
+  [ mkIns 1 [.mem ⟨some ⟨[], Text.ofString "rax", false, false⟩, none, 1, none, none, false, false, [1]⟩]
       [r "xmm0"] [] 7 none true,
     mkIns 2 [r "xmm0"] [r "xmm1"] [] 0 (some 0) false ]
 
@@ -541,9 +541,9 @@ def tieKernel : List Ins :=
 
 /-- the witness with a store of latency 1: the longest chain starts at the load stage of line 1 -/
 def loadChain : List Ins :=
-  [ mkIns 1 [.mem ⟨some ⟨[], Text.ofString "rax", false, false⟩, none, 1, none, false, false, [1]⟩, r "xmm1"]
+  [ mkIns 1 [.mem ⟨some ⟨[], Text.ofString "rax", false, false⟩, none, 1, none, none, false, false, [1]⟩, r "xmm1"]
       [r "xmm0"] [] 7 (some 3) true,
-    mkIns 2 [r "xmm0"] [.mem ⟨some ⟨[], Text.ofString "rax", false, false⟩, none, 1, none, false, false, [1]⟩] [] 1 (some 1) false ]
+    mkIns 2 [r "xmm0"] [.mem ⟨some ⟨[], Text.ofString "rax", false, false⟩, none, 1, none, none, false, false, [1]⟩] [] 1 (some 1) false ]
 
 -- non-vacuity.  A chain starting at a load: line 1 gets load stage 4 + edge 3, line 2 its latency 1.
 example : WFKernel loadChain ∧ LoadsKnown loadChain ∧ NonnegStages loadChain ∧ NonnegLats loadChain ∧
